@@ -223,6 +223,7 @@ fn inline_image(lexer: &mut Lexer, resolve: &impl Resolve) -> Result<Arc<ImageXO
 
 struct OpBuilder {
     last: Point,
+    start: Point,
     compability_section: bool,
     ops: Vec<Op>
 }
@@ -230,6 +231,7 @@ impl OpBuilder {
     fn new() -> Self {
         OpBuilder {
             last: Point { x: 0., y: 0. },
+            start: Point { x: 0., y: 0. },
             compability_section: false,
             ops: Vec::new()
         }
@@ -281,11 +283,13 @@ impl OpBuilder {
             "b"   => {
                 push(Op::Close);
                 push(Op::FillAndStroke { winding: NonZero });
+                self.last = self.start;
             },
             "B"   => push(Op::FillAndStroke { winding: NonZero }),
             "b*"  => {
                 push(Op::Close);
                 push(Op::FillAndStroke { winding: EvenOdd });
+                self.last = self.start;
             }
             "B*"  => push(Op::FillAndStroke { winding: EvenOdd }),
             "BDC" => push(Op::BeginMarkedContent {
@@ -342,7 +346,11 @@ impl OpBuilder {
             "G"   => push(Op::StrokeColor { color: Color::Gray(number(&mut args)?) }),
             "g"   => push(Op::FillColor { color: Color::Gray(number(&mut args)?) }),
             "gs"  => push(Op::GraphicsState { name: name(&mut args)? }),
-            "h"   => push(Op::Close),
+            "h"   => {
+                // closing a subpath moves the current point back to where the subpath began
+                push(Op::Close);
+                self.last = self.start;
+            }
             "i"   => push(Op::Flatness { tolerance: number(&mut args)? }),
             "ID"  => bail!("Parse Error. Unexpected 'ID'"),
             "j"   => {
@@ -382,13 +390,20 @@ impl OpBuilder {
                 let p = point(&mut args)?;
                 push(Op::MoveTo { p });
                 self.last = p;
+                self.start = p;
             }
             "M"   => push(Op::MiterLimit { limit: number(&mut args)? }),
             "MP"  => push(Op::MarkedContentPoint { tag: name(&mut args)?, properties: None }),
             "n"   => push(Op::EndPath),
             "q"   => push(Op::Save),
             "Q"   => push(Op::Restore),
-            "re"  => push(Op::Rect { rect: rect(&mut args)? }),
+            "re"  => {
+                // x y w h re  ==  x y m ... h: the current point is the rectangle's origin afterwards
+                let rect = rect(&mut args)?;
+                push(Op::Rect { rect });
+                self.start = Point { x: rect.x, y: rect.y };
+                self.last = self.start;
+            }
             "RG"  => push(Op::StrokeColor { color: Color::Rgb(rgb(&mut args)?) }),
             "rg"  => push(Op::FillColor { color: Color::Rgb(rgb(&mut args)?) }),
             "ri"  => {
@@ -400,6 +415,7 @@ impl OpBuilder {
             "s"   => {
                 push(Op::Close);
                 push(Op::Stroke);
+                self.last = self.start;
             }
             "S"   => push(Op::Stroke),
             "SC" | "SCN" => {
@@ -556,6 +572,7 @@ pub fn serialize_ops(mut ops: &[Op]) -> Result<Vec<u8>> {
 
     let mut data = Vec::new();
     let mut current_point = None;
+    let mut subpath_start = None;
     let f = &mut data;
 
     while ops.len() > 0 {
@@ -582,7 +599,10 @@ pub fn serialize_ops(mut ops: &[Op]) -> Result<Vec<u8>> {
                 writeln!(f, " MP")?;
             }
             Op::EndMarkedContent => writeln!(f, "EMC")?,
-            Op::Close => match ops.get(1) {
+            Op::Close => {
+                // mirrors the parser: after a close the current point is the start of the subpath
+                current_point = subpath_start;
+                match ops.get(1) {
                 Some(Op::Stroke) => {
                     writeln!(f, "s")?;
                     advance += 1;
@@ -596,10 +616,12 @@ pub fn serialize_ops(mut ops: &[Op]) -> Result<Vec<u8>> {
                     advance += 1;
                 }
                 _ => writeln!(f, "h")?,
+                }
             }
             Op::MoveTo { p } => {
                 writeln!(f, "{} m", p)?;
                 current_point = Some(p);
+                subpath_start = Some(p);
             }
             Op::LineTo { p } => {
                 writeln!(f, "{} l", p)?;
@@ -615,7 +637,11 @@ pub fn serialize_ops(mut ops: &[Op]) -> Result<Vec<u8>> {
                 }
                 current_point = Some(p);
             },
-            Op::Rect { rect } => writeln!(f, "{} re", rect)?,
+            Op::Rect { rect } => {
+                writeln!(f, "{} re", rect)?;
+                subpath_start = Some(Point { x: rect.x, y: rect.y });
+                current_point = subpath_start;
+            }
             Op::EndPath => writeln!(f, "n")?,
             Op::Stroke => writeln!(f, "S")?,
             Op::FillAndStroke { winding: Winding::NonZero } => writeln!(f, "B")?,
